@@ -244,6 +244,35 @@ def remaining : List Nat → List (List Op) → List (List Op)
 def completes (sched : List Nat) (progs : List (List Op)) : Bool :=
   (remaining sched progs).all List.isEmpty
 
+/-! ## Lock facts (T2): tokens of `Gen.Skel.Mem_*` -/
+
+/-- Tokens that touch the guarded data (`m.data`, an item's fields, a stored hash). -/
+def accessTokens : List String := ["@m.data", "@item.Value", "@item.Expiration", "@hash", "delete"]
+
+/-- Every access to guarded data lies between a lock and its unlock.  `defer mu.Unlock` keeps the
+lock to the end; a block that ends in `return` (`{ret` … `}`) does not change the lock state of
+the code after it. -/
+def lockedOK : List String → Bool → List Bool → Bool
+  | [], _, _ => true
+  | t :: ts, held, stk =>
+    if t == "mu.Lock" || t == "mu.RLock" then lockedOK ts true stk
+    else if t == "mu.Unlock" || t == "mu.RUnlock" then lockedOK ts false stk
+    else if t == "{ret" then lockedOK ts held (held :: stk)
+    else if t == "}" then
+      match stk with
+      | h :: s => lockedOK ts h s
+      | [] => false
+    else if accessTokens.contains t then held && lockedOK ts held stk
+    else lockedOK ts held stk
+
+/-- The skeletons of all modelled methods, regenerated from the source. -/
+def allSkeletons : List (List String) :=
+  [Gen.Skel.Mem_Set, Gen.Skel.Mem_Get, Gen.Skel.Mem_Delete, Gen.Skel.Mem_Exists, Gen.Skel.Mem_SetList,
+   Gen.Skel.Mem_GetList, Gen.Skel.Mem_AppendToList, Gen.Skel.Mem_RemoveFromList, Gen.Skel.Mem_SetHash,
+   Gen.Skel.Mem_GetHash, Gen.Skel.Mem_GetAllHash, Gen.Skel.Mem_DeleteHash, Gen.Skel.Mem_Incr,
+   Gen.Skel.Mem_IncrBy, Gen.Skel.Mem_SetExpiration, Gen.Skel.Mem_GetExpiration, Gen.Skel.Mem_CleanupExpired,
+   Gen.Skel.Mem_SetNX, Gen.Skel.Mem_CompareAndSwap, Gen.Skel.Mem_expirationFor]
+
 /-- What thread `i` saw. -/
 def project (i : Nat) (tr : List (Nat × Op × Res)) : List Res :=
   (tr.filter (fun e => e.1 == i)).map (fun e => e.2.2)
